@@ -304,6 +304,28 @@ fn check_ranges(m: &mut Mon, lim: u32, seed: u64) {
             m.chk("range.ordering", t, (key, r.ordering(s)), (key, exp));
         }
     }
+    // one-indexed row/column numbers and line endings: plain integer models
+    for v in [0u32, 1, 2, 7, 1000, u32::MAX - 2, u32::MAX - 1] {
+        let o = OneIndexed::from_zero_indexed(v);
+        m.chk("OneIndexed.get", t, (v, o.get()), (v, v + 1));
+        m.chk("OneIndexed.to_usize", t, (v, o.to_usize()), (v, v as usize + 1));
+        m.chk("OneIndexed.to_zero_indexed", t, (v, o.to_zero_indexed(), o.to_zero_indexed_usize()), (v, v, v as usize));
+        m.chk("OneIndexed.new", t, (v, OneIndexed::new(v + 1)), (v, Some(o)));
+        m.chk("OneIndexed.try_from_zero_indexed", t, (v, OneIndexed::try_from_zero_indexed(v as usize)), (v, Ok(o)));
+        for d in [0u32, 1, 2, 5, u32::MAX] {
+            m.chk("OneIndexed.saturating_add", t, (v, d, o.saturating_add(d).get()), (v, d, (v + 1).saturating_add(d)));
+            m.chk("OneIndexed.saturating_sub", t, (v, d, o.saturating_sub(d).get()), (v, d, (v + 1).saturating_sub(d).max(1)));
+        }
+    }
+    m.chk("OneIndexed.new(0)", t, OneIndexed::new(0), None);
+    m.chk("OneIndexed.MIN/MAX", t, (OneIndexed::MIN.get(), OneIndexed::MAX.get()), (1, u32::MAX));
+    m.chk("OneIndexed.try_from_zero_indexed/overflow", t, OneIndexed::try_from_zero_indexed(u32::MAX as usize + 1), Err(u32::MAX as usize + 1));
+    for (le, txt) in [(LineEnding::Lf, "\n"), (LineEnding::Cr, "\r"), (LineEnding::CrLf, "\r\n")] {
+        m.chk("LineEnding", t, (le.as_str(), le.len(), u32::from(le.text_len())), (txt, txt.len(), txt.len() as u32));
+    }
+    for v in [0u32, 1, 255, 65536, u32::MAX] {
+        m.chk("TextSize.to_u32/to_usize", t, (TextSize::from(v).to_u32(), TextSize::from(v).to_usize()), (v, v as usize));
+    }
     // slicing agrees with offsets
     let text = "a\u{e9}b\u{1d11e}c\n";
     for a in 0..=text.len() {
